@@ -595,6 +595,30 @@ def multi_scalar(ctx):
                         c.near(law, np.array(Y.data), np.array(data) * k)
 
 
+def multi_twist(ctx):
+    """an object holding a revolute and a prismatic unit twist: isprismatic per element, exp(theta_i) per element"""
+    for cls, rev_, pris_ in ((Twist3, lambda: Twist3.Revolute([0, 3, 4], [1, 2, 3]), lambda: Twist3.Prismatic([2, 0, 0])),
+                             (Twist2, lambda: Twist2.Revolute([1, 2]), lambda: Twist2.Prismatic([0, 5]))):
+        inp = {'class': cls.__name__}
+        c = Chk(ctx, f"{cls.__name__}:sequence", inp)
+        ctx.case(('multi-twist', cls.__name__))
+        r, p = rev_(), pris_()
+        X = c.call('construct', lambda: cls([r.S, p.S]))
+        if X is None:
+            continue
+        ip = c.call('isprismatic-sequence', lambda: X.isprismatic)
+        if ip is not None:
+            c.true('isprismatic-sequence', [bool(b) for b in ip] == [False, True], ip)
+        if cls is Twist3:
+            for ths in ([0.3, -0.7], np.array([PI / 2, 2.0])):
+                E = c.call('exp-sequence', lambda: X.exp(ths))
+                if E is not None:
+                    c.true('exp-sequence-length', len(E) == 2, f"len={len(E)}")
+                    if len(E) == 2:
+                        c.near('exp-sequence', E[0].A, r.exp(float(ths[0])).A, 4.0)
+                        c.near('exp-sequence', E[1].A, p.exp(float(ths[1])).A, 4.0)
+
+
 def oracle(ctx):
     rng = ctx.rng
     N = ctx.n(500, 40000)
@@ -620,6 +644,7 @@ def oracle(ctx):
         case2(ctx, gen_axis(rng, 2), gen_point(rng, 2), th, unit, form)
     named_axis(ctx)
     multi_scalar(ctx)
+    multi_twist(ctx)
     ctx.sample({'kind': 'oracle', 'case': 'Twist3.Revolute(a,q).exp(theta)', 'a': list(map(float, a)), 'q': list(map(float, q)), 'theta': th, 'unit': unit, 'form': form})
 
 
